@@ -212,8 +212,9 @@ def run(tier):
             fl = [{"p": "PUBLISH", "n": k, "o": "cutAfter"} for k in (1, 2, 3)][: 2 + j % 2]
             wl = [retry_checks.SUB(("x", 1), ("y", 2))] + [retry_checks.PUB(1)] * (len(fl) + 1)
             sc = rf.scenario("c10r-%d" % j, wl, ["conn"] * len(wl), fl, connacks=retry_checks.LOST[2] if j % 2 else [],
-                             opts={"alwaysResub": j % 2 == 0, "hammerPub": 3, "hammerSleepUs": (1, 5, 20)[j % 3], "connTimeoutMs": 300})
+                             opts={"alwaysResub": j % 2 == 0, "hammerPub": 3, "hammerSubs": True, "hammerSleepUs": (50, 200, 1000)[j % 3], "connTimeoutMs": 300})
             dsc.append(sc)
+        dsc += [dict(s_, id="c10" + s_["id"]) for s_ in retry_checks.resub_handshake("rh")]
         # DirectlyPublishQoS0: the callers' goroutines write on whatever base client is current while the reconnect loop
         # replaces and initialises it (SetClient, then Connect -> init) -- several reconnects each
         for j in range(16 if tier == "quick" else 80):
